@@ -119,8 +119,10 @@ func runStalledEnding(transport, cause string, rev int) (res stalledRes) {
 		res.why = "the session did not report the state closed within 20 s (state " + res.state + ")"
 		return
 	}
-	rig.Settle()
-	rig.Settle()
+	if !rig.AtRest(20 * time.Second) {
+		res.why = "the process did not come to rest within 20 s"
+		return
+	}
 	res.decided = true
 	for _, e := range w.Tap.Of(sid, "close") {
 		res.closeEvents = append(res.closeEvents, e.Str)
